@@ -198,7 +198,7 @@ func worldC07(w *World) {
 	nBad := t.Range(1, 5, "sabotaged")
 	kinds := []string{"reset-before-headers", "reset-mid-body", "close-mid-body", "garbage", "bad-header", "bad-chunk", "hang-then-close"}
 	if shim {
-		kinds = append(kinds, "shim-garbage-open", "shim-garbage-data", "shim-garbage-poll", "shim-unknown-close", "shim-odd-blob", "shim-odd-blob", "shim-data-close-race", "shim-data-close-race", "shim-hangup-before-poll", "shim-bad-frame", "shim-backend-closes-under-load")
+		kinds = append(kinds, "shim-garbage-open", "shim-garbage-data", "shim-garbage-poll", "shim-unknown-close", "shim-odd-blob", "shim-odd-blob", "shim-data-close-race", "shim-data-close-race", "shim-data-close-race", "shim-data-close-race", "shim-hangup-before-poll", "shim-bad-frame", "shim-backend-closes-under-load")
 	}
 	type creq struct {
 		tok    string
